@@ -166,6 +166,8 @@ def calls_in(node):
 
 def call_name(call):
     """Dotted name of a call's callee, e.g. 'self._machine_model.get_instruction'."""
+    if not isinstance(call, ast.Call):
+        return ""
     f = call.func
     parts = []
     while isinstance(f, ast.Attribute):
